@@ -86,25 +86,39 @@ var mFileScope = Mutant{"processFile no longer skips other files' fragments", fD
 var mNewPkgErr = Mutant{"NewPackage keeps going after a package name mismatch without reporting", "resolve.go", "\t\t\tp.errorf(\"package %s; expected %s\", name, pkgName)\n", ""}
 var mScopeInsert = Mutant{"Scope.Insert overwrites", "scope.go", "\tif alt = s.Objects[obj.Name]; alt == nil {\n\t\ts.Objects[obj.Name] = obj\n\t}", "\talt = s.Objects[obj.Name]\n\ts.Objects[obj.Name] = obj"}
 
+var mDropPath = Mutant{"decorate Ident drops the resolved path", fDeco, "\t\t\tout.Path = path\n\t\t}", "\t\t\t_ = path\n\t\t}"}
+var mSelName = Mutant{"decorateSelectorExpr names the identifier after the object, not the selector", fD, "out.Name = n.Sel.Name", "out.Name = n.Sel.Obj.Name"}
+var mSelPathCond = Mutant{"decorateSelectorExpr stores the path only when it is not the local one", fD, "\tout.Path = path\n", "\tif path != f.Path {\n\t\tout.Path = path\n\t}\n"}
+var mSelFromAlias = Mutant{"restoreIdent builds Sel from the package name", fR, "out.Sel = r.restoreNode(dst.NewIdent(n.Name),", "out.Sel = r.restoreNode(dst.NewIdent(name),"}
+var mGoastStopEarly = Mutant{"goast imports() stops after the first parenthesised import declaration", "decorator/resolver/goast/resolver.go", "\t\t\t\treturn false\n\t\t\t}\n\t\t\treturn true\n\t\tcase *ast.ImportSpec:", "\t\t\t\treturn false\n\t\t\t}\n\t\t\tdone = node.Rparen.IsValid()\n\t\t\treturn true\n\t\tcase *ast.ImportSpec:"}
+var mLinesReuse = Mutant{"RestoreFile reuses the line table's array", fR, "\tr.lines = []int{0} // initialise with the first line at Pos 0", "\tr.lines = append(r.lines[:0], 0)"}
+var mBackMapSel = Mutant{"decorateSelectorExpr maps the identifier back to Sel", fD, "\tf.Ast.Nodes[out] = n\n\n\t// String: Name\n\tout.Name = n.Sel.Name", "\tf.Ast.Nodes[out] = n\n\tf.Ast.Nodes[out] = n.Sel\n\n\t// String: Name\n\tout.Name = n.Sel.Name"}
+var mClonePath = Mutant{"Clone Ident forgets the path", fClone, "\t\t// Path: Path\n\t\tout.Path = n.Path\n", ""}
+var mPrependClip = Mutant{"Prepend appends to the capacity-clipped argument", "decorations.go", "\t*d = append(append([]string{}, decs...), *d...) // ensure we don't modify decs", "\t*d = append(decs[:len(decs):len(decs)], *d...)"}
+
+var mAttachedStops = Mutant{"findDecoration gives up at a comment that is already attached", fDF, "\t\tcase *commentFragment:\n\t\t\tif current.Attached != nil {\n\t\t\t\tcontinue\n\t\t\t}\n\t\t\tif direction == 1 {", "\t\tcase *commentFragment:\n\t\t\tif current.Attached != nil {\n\t\t\t\treturn\n\t\t\t}\n\t\t\tif direction == 1 {"}
+var mAdjustedLine = Mutant{"fragment() marks comment lines with //line-adjusted numbers", fDF, "startLine := f.position(c.Pos()).Line", "startLine := f.Fset.Position(c.Pos()).Line"}
+
 // SelfTestMutants lists, per property, the mutants its check must catch.
 var SelfTestMutants = map[string][]Mutant{
-	"C01": {mTokenLen, mDropTok, mElseGuard, mFragNoChild, mNoParseComments, mFileScope, mDecKey, mCrossFile, mAvoidGroup, mEndAtPos, mInnerAtToken},
-	"C02": {mDecKey, mCloneDropDec, mSpaceLast, mCondDec, mCrossFile, mEndAtPos},
-	"C03": {mDropTok, mDropChildDeco, mFragNoChild, mElseGuard, mCrossFile, mAvoidGroup},
+	"C01": {mTokenLen, mDropTok, mElseGuard, mFragNoChild, mNoParseComments, mFileScope, mDecKey, mCrossFile, mAvoidGroup, mEndAtPos, mInnerAtToken, mAttachedStops, mAdjustedLine},
+	"C02": {mDecKey, mCloneDropDec, mSpaceLast, mCondDec, mCrossFile, mEndAtPos, mAttachedStops},
+	"C03": {mDropTok, mDropChildDeco, mFragNoChild, mElseGuard, mCrossFile, mAvoidGroup, mAdjustedLine},
 	"C04": {mSwapDecs, mEndFlag, mCondDec},
 	"C05": {mSpaceNoFresh, mSpaceEmpty3, mSpaceLast, mNoAdvanceNL},
-	"C06": {mCloneAlias, mCloneDropDec, mCloneShareDec, mDupFlag, mDeleteReg},
+	"C06": {mCloneAlias, mCloneDropDec, mCloneShareDec, mDupFlag, mDeleteReg, mClonePath},
 	"C07": {mNoSort, mIdentNoPeriod, mResolveAll},
 	"C08": {mAlwaysSort, mMergeOrder, mIdentNoPeriod, mStoreBeforeErr, mResolveAll},
-	"C09": {mAvoidTypo, mForceX, mNoVendorLocal, mFieldPath, mRawFile},
-	"C11": {mDropMapReg, mLateMapReg, mDropChildDeco, mDeleteReg},
-	"C12": {mCursorBack, mNoAdvanceNL, mAddFileEarly, mPosNotCursor},
+	"C09": {mAvoidTypo, mForceX, mNoVendorLocal, mFieldPath, mRawFile, mDropPath, mSelName, mSelPathCond, mGoastStopEarly},
+	"C10": {mDropPath, mSelName, mSelPathCond, mSelFromAlias, mForceX, mNoVendorLocal, mClonePath},
+	"C11": {mDropMapReg, mLateMapReg, mDropChildDeco, mDeleteReg, mBackMapSel},
+	"C12": {mCursorBack, mNoAdvanceNL, mAddFileEarly, mPosNotCursor, mLinesReuse},
 	"C13": {mWalkDrop, mWalkOrder, mWalkNoNil},
 	"C14": {mApplyName, mApplyDrop, mIterStep, mUnsortedFiles, mWalkDrop},
 	"C15": {mNilFileGuard, mUnguardChild, mNewPanic, mRawFile},
 	"C16": {mUnlockEarly, mGlobalWrite, mGoroutine, mNoSort},
 	"C17": {mSwallowErr, mErrNoWrap, mStoreBeforeErr, mDecoDropErr},
 	"C18": {mObjLate, mScopeNoOuter, mExtrasGate, mNewPkgErr, mScopeInsert},
-	"C19": {mAppendAlias, mAppendOrder},
+	"C19": {mAppendAlias, mAppendOrder, mPrependClip},
 	"C20": {mWriteFirst, mSharedBuf, mExtraWriter},
 }
